@@ -78,7 +78,7 @@ fn users_pool() -> Vec<ColPool> {
     vec![
         ColPool { name: "age", variants: vec![ColType::IntRange { lo: 0, hi: 100 }, ColType::IntRange { lo: 18, hi: 90 }, ColType::IntRange { lo: -5, hi: 5 }, ColType::FloatRange { lo: 0.0, hi: 120.0 }], can_be_optional: true },
         ColPool { name: "city", variants: vec![tv(&["NY", "LA"]), tv(&["NY", "LA", "SF", "DC"]), ColType::Text], can_be_optional: false },
-        ColPool { name: "score", variants: vec![ColType::FloatRange { lo: -10.0, hi: 10.0 }, ColType::FloatRange { lo: 0.0, hi: 5.0 }, ColType::FloatRange { lo: 2.5, hi: 2.5 }, ColType::FloatRange { lo: -3.0, hi: -1.0 }], can_be_optional: true },
+        ColPool { name: "score", variants: vec![ColType::FloatRange { lo: -10.0, hi: 10.0 }, ColType::FloatRange { lo: 0.0, hi: 5.0 }, ColType::FloatRange { lo: 2.5, hi: 2.5 }, ColType::FloatRange { lo: -3.0, hi: -1.0 }, ColType::FloatRange { lo: 0.0, hi: 1e-9 }], can_be_optional: true },
         ColPool { name: "vip", variants: vec![ColType::Bool], can_be_optional: false },
         ColPool { name: "zip", variants: vec![ColType::IntRange { lo: 10000, hi: 10050 }, ColType::Text], can_be_optional: false },
     ]
@@ -86,7 +86,7 @@ fn users_pool() -> Vec<ColPool> {
 
 fn orders_pool() -> Vec<ColPool> {
     vec![
-        ColPool { name: "amount", variants: vec![ColType::FloatRange { lo: 0.0, hi: 100.0 }, ColType::FloatRange { lo: -50.0, hi: 50.0 }, ColType::FloatRange { lo: 10.0, hi: 20.0 }, ColType::IntRange { lo: 0, hi: 1000 }], can_be_optional: true },
+        ColPool { name: "amount", variants: vec![ColType::FloatRange { lo: 0.0, hi: 100.0 }, ColType::FloatRange { lo: -50.0, hi: 50.0 }, ColType::FloatRange { lo: 10.0, hi: 20.0 }, ColType::IntRange { lo: 0, hi: 1000 }, ColType::FloatRange { lo: 0.0, hi: 1e-9 }], can_be_optional: true },
         ColPool { name: "qty", variants: vec![ColType::IntRange { lo: 0, hi: 30 }, ColType::IntValues(vec![1, 2, 3, 5]), ColType::IntRange { lo: 1, hi: 3 }, ColType::IntValues(vec![0, 10])], can_be_optional: true },
         ColPool { name: "status", variants: vec![tv(&["a", "b", "c"]), tv(&["open", "closed"]), ColType::Text], can_be_optional: false },
         ColPool { name: "note", variants: vec![ColType::Text], can_be_optional: true },
@@ -96,7 +96,7 @@ fn orders_pool() -> Vec<ColPool> {
 
 fn items_pool() -> Vec<ColPool> {
     vec![
-        ColPool { name: "price", variants: vec![ColType::FloatRange { lo: 0.0, hi: 50.0 }, ColType::FloatRange { lo: -20.0, hi: 20.0 }, ColType::FloatRange { lo: 1.0, hi: 2.0 }], can_be_optional: true },
+        ColPool { name: "price", variants: vec![ColType::FloatRange { lo: 0.0, hi: 50.0 }, ColType::FloatRange { lo: -20.0, hi: 20.0 }, ColType::FloatRange { lo: 1.0, hi: 2.0 }, ColType::FloatRange { lo: 0.0, hi: 1e-18 }], can_be_optional: true },
         ColPool { name: "n", variants: vec![ColType::IntValues(vec![1, 2, 4]), ColType::IntRange { lo: 0, hi: 9 }], can_be_optional: false },
         ColPool { name: "kind", variants: vec![tv(&["x", "y"]), tv(&["x", "y", "z"]), ColType::Text], can_be_optional: false },
     ]
@@ -256,8 +256,13 @@ pub fn generate(seed: u64, run: u64, prop: &str) -> Generated {
     let mut entries = vec![];
     let mut protected: Vec<String> = vec![];
     if direct_orders {
-        // orders is the unit-carrying table: unit = user_id (or the row)
-        entries.push(PuEntry { table: "orders".into(), path: vec![], field: if row_privacy { ROW_PRIVACY.into() } else { "user_id".into() }, weight: None });
+        // orders is the unit-carrying table: unit = user_id (or the row); sometimes with a
+        // per-row weight column
+        let row_weight = !row_privacy && rp.chance(0.35);
+        if row_weight {
+            orders.cols.push(ColSpec { name: "w".into(), ty: ColType::FloatRange { lo: 0.0, hi: 4.0 }, optional: false, unique: false });
+        }
+        entries.push(PuEntry { table: "orders".into(), path: vec![], field: if row_privacy { ROW_PRIVACY.into() } else { "user_id".into() }, weight: if row_weight { Some("w".into()) } else { None } });
         protected.push("orders".into());
         if depth >= 3 {
             entries.push(PuEntry { table: "items".into(), path: vec![("order_id".into(), "orders".into(), "id".into())], field: if row_privacy { ROW_PRIVACY.into() } else { "user_id".into() }, weight: None });
@@ -380,6 +385,7 @@ pub fn generate(seed: u64, run: u64, prop: &str) -> Generated {
                     row.push(match c.name.as_str() {
                         "id" => Cell::Int(this_id),
                         "user_id" => Cell::Int(*uid),
+                        "w" => Cell::Float(*rd.pick(&[0.5, 1.0, 1.5, 2.0, 3.0, 4.0])),
                         "note" if Some(ui) == spread_user => Cell::Text(format!("s{}_{}", ui, j)),
                         "qty" if Some(ui) == spread_user => match &c.ty {
                             // spread the unit over as many distinct values as the type allows
@@ -730,8 +736,9 @@ pub fn generate(seed: u64, run: u64, prop: &str) -> Generated {
                 // computed public key over a private column
                 if c.ty.is_numeric() && rg.chance(0.5) {
                     let (lo, hi) = match &c.ty { ColType::IntRange { lo, hi } => (*lo as f64, *hi as f64), ColType::FloatRange { lo, hi } => (*lo, *hi), _ => (0.0, 1.0) };
-                    let mid = lo + (hi - lo) / 2.0;
-                    let expr = format!("CASE WHEN {} > {:?} THEN 'hi' ELSE 'lo' END", q, mid);
+                    // threshold in the middle of the declared range, or exactly on one of its bounds
+                    let mid = match rg.weighted(&[6, 2, 2]) { 0 => lo + (hi - lo) / 2.0, 1 => lo, _ => hi };
+                    let expr = format!("CASE WHEN {} {} {:?} THEN 'hi' ELSE 'lo' END", q, rg.pick(&[">", ">", "<", ">=", "<="]), mid);
                     keys.push(KeySpec { expr, alias: format!("k{}", keys.len()), public_set: Some(vec![Cell::Text("hi".into()), Cell::Text("lo".into())]), nullable: false, ambiguous: true });
                 }
                 continue;
